@@ -1121,6 +1121,26 @@ fn case() -> impl Strategy<Value = Case> {
     })
 }
 
+/// the shipped units may be added to a builder at any point, not only first
+fn bundled_after_layer_ok() -> bool {
+    let layer = |sym: &str| -> UnitsFile {
+        toml::from_str(&format!("[[quantity]]\nquantity = \"mass\"\n[quantity.units]\nunspecified = [ {{ names = [\"knob\"], symbols = [\"{sym}\"], ratio = 15 }} ]\n")).expect("layer")
+    };
+    let n = Converter::bundled().unit_count();
+    // by value and by reference: the earlier layer stays
+    let a = guard(|| ConverterBuilder::new().with_units_file(layer("knb")).and_then(|b| b.with_bundled_units()).and_then(|b| b.finish()));
+    let b = guard(|| {
+        let mut b = ConverterBuilder::new();
+        b.add_units_file(layer("knb"))?;
+        b.add_bundled_units()?;
+        b.finish()
+    });
+    let ok = |r: &Result<Result<Converter, cooklang::convert::ConverterBuilderError>, String>| matches!(r, Ok(Ok(c)) if c.unit_count() == n + 1 && c.find_unit("knob").is_some() && c.find_unit("kg").is_some());
+    // a layer that claims a shipped key clashes with the shipped units whichever comes first
+    let clash = guard(|| ConverterBuilder::new().with_units_file(layer("g")).and_then(|b| b.with_bundled_units()).and_then(|b| b.finish()));
+    ok(&a) && ok(&b) && matches!(clash, Ok(Err(_)))
+}
+
 fn fixed_cases(run: &mut Run) {
     let mut st = Stats::default();
     // default converter == built from the shipped units file
@@ -1138,6 +1158,8 @@ fn fixed_cases(run: &mut Run) {
                         let via_builder = guard(|| Converter::builder().with_bundled_units().and_then(|b| b.finish()));
                         if !matches!(&via_builder, Ok(Ok(b)) if *b == c) {
                             fail = Some(Violation::new("c16.default-differs-from-shipped-file", "Converter::builder().with_bundled_units().finish() differs from the converter built from units.toml (or fails)"));
+                        } else if !bundled_after_layer_ok() {
+                            fail = Some(Violation::new("c16.bundled-after-layer", "a builder that already holds a layer loses it (or its key clash with the shipped units goes unnoticed) when with_bundled_units() / add_bundled_units() is called on it"));
                         } else if UnitsFile::bundled() != toml::from_str::<UnitsFile>(&text).unwrap() {
                             fail = Some(Violation::new("c16.default-differs-from-shipped-file", "UnitsFile::bundled() differs from units.toml read through toml"));
                         } else if c != Converter::default() || c != Converter::bundled() {
